@@ -191,6 +191,22 @@ CLAIMED = {
        "sampled); characters outside ASCII are covered by the oracle only (Rust's grapheme-extend / printable tables are not modelled); "
        "structs are outside the property.",
   technique="Lean 4 proof (integer literals, escape table) + two-way text correspondence + literal-value oracle", ref="DESIGN.md §6 C20"),
+ "C18": dict(
+  text="Lean 4 theorems over the export table and the TypeOf table, both regenerated from src/stdlib.rs, src/stdlib/*.rs and "
+       "src/variable/type_of.rs on every run: for every exported function whose result type is derived from its Rust return type, every Rust "
+       "value of that type converts (From<_> for Variable) to a SimpleSL value inhabiting the declared result type; every value of a "
+       "declared parameter type is accepted by the TryFrom<&Variable> conversion the generated wrapper unwraps, and [int] arrays hold "
+       "ints (so the unwraps of the argument import cannot fail); count_ones + count_zeros = 64, leading/trailing counts are bounded and "
+       "locate the first set bit, leading_zeros = 64 iff 0, reverse_bits and swap_bytes are involutions, ilog is the floor logarithm, is () "
+       "exactly for num <= 0 or base < 2, and fits its u32. NOT proved: what the Rust bodies of string, float, fs and io functions compute - "
+       "these are judged on generated calls (host API and programs): declared signature of the real `std` value = the model's, no panic / "
+       "error, result inside the declared type (tag and contents), integer helpers = Lean model, string / conversion / exact float helpers and "
+       "constants = an oracle written from docs/stdlib.md, print output, cgetline on prepared stdin states, fs post-conditions on fresh trees "
+       "and device faults.",
+  note="Lean kernel; the translator's reading of #[export] items and of `impl TypeOf` (fails closed on anything it cannot read); Rust std, libm "
+       "and the operating system are not modelled; the three #[return_type] overrides (split, chars, bytes) are claims about Rust bodies "
+       "and are covered by the call stream only.",
+  technique="Lean 4 proof over regenerated signature tables and integer helpers + call correspondence with doc oracle and fs/stdin fault states", ref="DESIGN.md §6 C18"),
 }
 NOT_YET = "machinery for this property is not built yet in this round (planned, see DESIGN.md §6)"
 
